@@ -523,7 +523,8 @@ fn readonly() -> i32 {
                 let before = snap(&dir);
                 {
                     let db = abyssiniandb::open_file(&dir).unwrap();
-                    let ro_params = if del % 2 == 1 { FileDbParams { key_buf_size: FileBufSizeParam::Size(384 * 1024), val_buf_size: FileBufSizeParam::Size(300_000), htx_buf_size: FileBufSizeParam::Size(1024 * 1024), ..params.clone() } } else { params.clone() };
+                    let ro_params = if del % 2 == 1 { FileDbParams { key_buf_size: FileBufSizeParam::Size(384 * 1024), val_buf_size: FileBufSizeParam::Size(300_000), htx_buf_size: FileBufSizeParam::Size(1024 * 1024),
+                                                                      buckets_size: if del == 1 { HashBucketsParam::Capacity(5000) } else { HashBucketsParam::BucketsSize(n * 16) }, ..params.clone() } } else { params.clone() };
                     let mut m = db.db_map_string_with_params("m", ro_params).unwrap();
                     for i in 0..(fill + 30) { let _ = m.get(&format!("k{i}")).unwrap(); let _ = m.includes_key(&format!("absent{i}")).unwrap(); }
                     let _ = m.len().unwrap(); let _ = m.is_empty().unwrap();
@@ -1175,13 +1176,17 @@ fn syncfail_child(dir: &str, t: usize) -> i32 {
             if !errs.is_empty() { return Err(format!("{}: returned Ok although the OS refused the write: {}", $tag, errs.join(", "))); }
             for i in 0..300u64 { if $m.get(&$key(i)).unwrap() != Some(vec![(i & 0xff) as u8; 9]) { return Err(format!("{}: in-memory view wrong after the failed flush (key #{i})", $tag)); } }
             if $m.len().unwrap() != 301 { return Err(format!("{}: len {} after the failed flush", $tag, $m.len().unwrap())); }
+            // calls that change nothing must not make the map forget its unflushed updates
+            if $m.delete(&$key(1_000_000)).unwrap().is_some() { return Err(format!("{}: delete of an absent key returned a value", $tag)); }
+            let _ = $m.includes_key(&$key(1_000_001)).unwrap(); let _ = $m.len().unwrap();
             // lift the limit, if possible
             let lifted = std::process::Command::new("prlimit").arg("--pid").arg(std::process::id().to_string()).arg("--fsize=unlimited:").status().map(|s| s.success()).unwrap_or(false);
             if lifted {
                 if let Err(e) = $m.flush() { return Err(format!("{}: flush still fails after the limit was lifted: {e}", $tag)); }
-                db.sync_all().map_err(|e| format!("{}: FileDb::sync_all fails after the limit was lifted: {e}", $tag))?;
+                // the copy is taken right after flush() returned Ok (a sync_* would write regardless of the dirty flag)
                 let snap = { let mut p = std::env::temp_dir(); p.push(format!("abyss-replay-syncfailsnap-{}", std::process::id())); p };
                 copy_dir(&dir, &snap);
+                db.sync_all().map_err(|e| format!("{}: FileDb::sync_all fails after the limit was lifted: {e}", $tag))?;
                 let ok = { let db2 = abyssiniandb::open_file(&snap).unwrap(); let r = $tag; let _ = r; true && db2.path().exists() };
                 let _ = ok;
                 Some(snap)
